@@ -255,7 +255,7 @@ PROPS = {
                       "enabled assert() + exact-size heap copies of every buffer and header; allocator balance after lzma_end; "
                       "only documented status codes; out-parameters not left set on failure; a stalled client gets LZMA_BUF_ERROR "
                       "or a terminal status within 2 calls (single-threaded) / within the fair-phase budget (threaded); per-run "
-                      "call and step budgets and a 180 s watchdog for loops inside one call; no deadlock.",
+                      "call and step budgets and a 600 s wall-clock backstop for loops inside one call; no deadlock.",
         "level_note": "Mostly fault-aimed fuzzing; the simulation-specific parts are the stall/liveness oracle, the memory limits and "
                       "the threaded decoder. MSan is not usable for the whole library here (DESIGN.md section 9): allocations are "
                       "poison-filled instead so that reads of uninitialised memory give stable garbage that the comparison "
